@@ -617,3 +617,39 @@ Proof.
     { apply sim_new_vec. eapply Forall_le_lt; [|exact HF15]. lia. }
     intros t [] bits8 HRt. apply sim_ret. eapply R_tbl_weaken; [exact HlenA|exact HRt].
 Qed.
+
+(* ---------------------------------------------------------------- groups and the colour-cache parameter *)
+Definition R_group (cache_len : N) (g : group) (cs : codes) : Prop :=
+  R_tbl (256 + 24 + cache_len) (g_green g) (c_green cs) /\ R_tbl 256 (g_red g) (c_red cs) /\
+  R_tbl 256 (g_blue g) (c_blue cs) /\ R_tbl 256 (g_alpha g) (c_alpha cs) /\ R_tbl 40 (g_dist g) (c_dist cs).
+
+Lemma sim_read_group cache_len bits : cache_len <= 2048 ->
+  sim (R_group cache_len) (read_group cache_len bits) (read_codes true cache_len bits).
+Proof.
+  intros Hc. unfold read_group, read_codes.
+  eapply sim_bind; [exact (sim_read_prefix_code KGreen cache_len bits Hc)|]. intros t1 c1 b1 H1.
+  eapply sim_bind; [exact (sim_read_prefix_code KArb cache_len b1 Hc)|]. intros t2 c2 b2 H2.
+  eapply sim_bind; [exact (sim_read_prefix_code KArb cache_len b2 Hc)|]. intros t3 c3 b3 H3.
+  eapply sim_bind; [exact (sim_read_prefix_code KArb cache_len b3 Hc)|]. intros t4 c4 b4 H4.
+  eapply sim_bind; [exact (sim_read_prefix_code KDist cache_len b4 Hc)|]. intros t5 c5 b5 H5.
+  apply sim_ret. unfold R_group. cbn [g_green g_red g_blue g_alpha g_dist c_green c_red c_blue c_alpha c_dist].
+  split; [exact H1|split; [exact H2|split; [exact H3|split; [exact H4|exact H5]]]].
+Qed.
+
+Lemma sim_read_color_cache bits :
+  sim (fun len cb => len = cache_size cb /\ len <= 2048 /\ cb <= 11) (read_color_cache bits) (read_cache_bits bits).
+Proof.
+  unfold read_color_cache, read_cache_bits.
+  eapply sim_bind; [apply sim_rd_bit|]. intros has ? b1 <-. destruct has.
+  - eapply sim_bind; [apply sim_rd; lia|]. intros order ? b2 [<- Ho].
+    unfold require, rule_cache_bits.
+    destruct (N.leb_spec order 11) as [H11|H11]; cbn [negb].
+    + destruct (N.eqb_spec order 0) as [->|H0].
+      * cbn. eexists. reflexivity.
+      * replace (1 <=? order) with true by (symmetry; apply N.leb_le; lia). cbn [andb]. rewrite sbind_ret.
+        apply sim_ret. unfold cache_size. replace (order =? 0) with false by (symmetry; apply N.eqb_neq; exact H0).
+        split; [reflexivity|]. split; [|exact H11].
+        change 2048 with (2 ^ 11). apply N.pow_le_mono_r; lia.
+    + rewrite andb_false_r. apply sim_fail_fail.
+  - apply sim_ret. cbn. repeat split; lia.
+Qed.
